@@ -35,39 +35,64 @@ def lib_unwinds(E, G, lines=None, alloc=None):
     return u
 
 def dec_praw(inp, inst):
-    pb = int(inst.defines.get("PB", 4))
-    L = inp[0] if inp else 0
-    data = bytes(inp[1:1 + pb]).ljust(pb, b"\0")[:min(L, pb)]
-    return {"file_bytes": data.decode("latin1").encode("unicode_escape").decode("ascii"), "delim": inst.defines.get("DELIM"), "comment": inst.defines.get("COMMENT"), "opts": inst.defines.get("OPTS")}
+    tpl = inst.defines.get("RAWTPL", '""').strip('"')
+    data = "".join("\n" if c == "N" else (chr(inp[1 + i]) if 1 + i < len(inp) else "\0") for i, c in enumerate(tpl))
+    return {"file_bytes": data.encode("latin1").decode("latin1").encode("unicode_escape").decode("ascii"), "delim": inst.defines.get("DELIM"), "comment": inst.defines.get("COMMENT"), "optmode": inst.defines.get("OPTMODE")}
 
-def p_raw(name, pb, lines, delim, comment, opts, follow=None, timeout=900, exact=False, mem=12):
-    cap = 6 + 1 + pb + 2
-    d = {"PB": pb, "PLINES": lines, "DELIM": DELIMS[delim], "COMMENT": COMMENTS[comment], "OPTS": OPTS[opts],
-         "STRCAP": cap, "VCAP": lines + 1, "VFS_CONTENT": pb, "VFS_MAXNODES": 2}
-    if follow: d[follow] = None
+def raw_structures(maxlen):
+    """every line structure of byte strings of length 0..maxlen ('.' byte other than NL, 'N' = NL)"""
+    import itertools
+    out = []
+    for n in range(0, maxlen + 1):
+        for t in itertools.product(".N", repeat=n):
+            out.append("".join(t))
+    return out
+
+def p_raw(tpl, delim, comment, optmode, follow=("FOLLOW_LIST",), timeout=600, exact=False, mem=8):
+    n = len(tpl)
+    lines = tpl.count("N") + (1 if (n and not tpl.endswith("N")) else 0)
+    cap = max(6 + 1 + n + 2, 10)
+    d = {"PB": max(n, 1), "RAWTPL": '"%s"' % tpl, "DELIM": DELIMS[delim], "COMMENT": COMMENTS[comment], "OPTMODE": optmode,
+         "STRCAP": cap, "VCAP": max(lines + 2, 10 if "FOLLOW_MERGE" in follow else 3), "VFS_CONTENT": max(n, 1) + (16 if "FOLLOW_WRITE" in follow else 0), "VFS_MAXNODES": 4, "FMTCAP": 24}
+    for f in follow: d[f] = None
     if exact: d["ALLOC_EXACT"] = None
-    return Instance(name, "p_raw.c", d, unwind=cap + 1,
-                    unwindset=lib_unwinds(lines, lines + 1, lines=lines) + [(r"p_raw\.c", r"MAXE", lines + 1)],
+    E = max(lines, 1) + (1 if "FOLLOW_MERGE" in follow else 0)
+    uw = lib_unwinds(E * 2, lines + 2, lines=lines + 1, alloc=max(E * 2, 9 if "FOLLOW_MERGE" in follow else 0)) + [(r"p_raw\.c", r"MAXE|which < 2|i < L", max(lines, n) + 2), (r"mergefiles\.c", r"uf->length|ef->length|added_keys", 2 * E + 2),
+         (r"libeconf_ext\.c", r"strsep", lines + 3), (r"builtin-library-strncpy", r"", 18), (r"libeconf\.c", r"strsep", lines + 3), (r"vfs_cbmc\.c", r"k < VFS_CONTENT", d["VFS_CONTENT"] + 2)]
+    return Instance("raw-%s-%s-%s-o%d%s-%s" % (tpl or "empty", delim, comment, optmode, "-x" if exact else "", "+".join(f[7:].lower() for f in follow)), "p_raw.c", d, unwind=cap + 1, unwindset=uw,
                     timeout=timeout, mem_gb=mem, leak_check=True,
-                    functions="read_file_with_callback, read_file, store, check_delim, join_same_entries, setGroupList, getFromGroupList, econf_newKeyFile_with_options, econf_freeFile, get_absolute_path",
-                    bounds="file length <= %d bytes over all 256 byte values, <= %d lines, delim=%s comment=%s opts=%s" % (pb, lines, delim, comment, opts),
-                    sample_decoder=dec_praw)
+                    functions="read_file_with_callback, read_file, store, check_delim, join_same_entries, setGroupList, getFromGroupList, econf_getGroups, econf_getKeys, typed/extended getters, econf_mergeFiles, econf_writeFile, econf_freeFile",
+                    bounds="file = line structure '%s' ('.' any of the 255 byte values other than NL incl. NUL, N = NL); all structures of a length together are all byte strings of that length; delim=%s comment=%s optmode=%d follow=%s" % (tpl, delim, comment, optmode, ",".join(follow)),
+                    sample_decoder=dec_praw, expect_reach=[])
 
 def c04(tier):
     insts = []
     if tier == "quick":
-        for dl in ("eq", "sp", "speq"):
-            insts.append(p_raw("praw-b4-%s-hash-default" % dl, 4, 2, dl, "hash", "default", follow="FOLLOW_LIST"))
-        insts.append(p_raw("praw-b4-eq-both-join", 4, 2, "eq", "both", "join", follow="FOLLOW_LIST"))
-        insts.append(p_raw("praw-b4-eq-hash-python", 4, 2, "eq", "hash", "python", follow="FOLLOW_LIST"))
-        insts.append(p_raw("praw-b4-none-hash-default", 4, 2, "none", "hash", "default", follow="FOLLOW_LIST"))
+        cfgs = [("eq", "hash", 0), ("sp", "both", 0), ("speq", "hash", 1), ("none", "hash", 0), ("eq", "both", 2)]
+        for tpl in raw_structures(3):
+            for (dl, cm, om) in cfgs:
+                insts.append(p_raw(tpl, dl, cm, om))
+        for tpl in raw_structures(4):
+            if len(tpl) == 4: insts.append(p_raw(tpl, "eq", "hash", 0))
+        insts.append(p_raw("..", "eq", "hash", 0, follow=("FOLLOW_GETTERS",)))
+        insts.append(p_raw("..", "eq", "hash", 0, follow=("FOLLOW_WRITE",)))
     else:
-        for dl in DELIMS:
-            for cm in COMMENTS:
-                for op in OPTS:
-                    insts.append(p_raw("praw-b5-%s-%s-%s" % (dl, cm, op), 5, 2, dl, cm, op, follow="FOLLOW_LIST", timeout=2400))
-    return {"instances": insts, "assumptions": COMMON_ASSUME,
-            "explanation": "bounded model checking of the real parser and follow-up API calls on fully symbolic file bytes"}
+        for tpl in raw_structures(6):
+            for dl in DELIMS:
+                for cm in COMMENTS:
+                    for om in (0, 1, 2):
+                        if len(tpl) > 4 and not ((dl, cm) in (("eq", "hash"), ("sp", "both"), ("speq", "hash"), ("none", "semi"), ("coleq", "both"))): continue
+                        insts.append(p_raw(tpl, dl, cm, om, timeout=1200))
+        for tpl in raw_structures(3):
+            for dl, cm in (("eq", "hash"), ("sp", "both")):
+                for fl in ("FOLLOW_GETTERS", "FOLLOW_WRITE"):
+                    insts.append(p_raw(tpl, dl, cm, 0, follow=(fl,), timeout=1800))
+        for tpl in raw_structures(4):
+            insts.append(p_raw(tpl, "eq", "hash", 0, exact=True, timeout=1200))
+    return {"instances": insts, "assumptions": COMMON_ASSUME + ["byte strings are enumerated by their line structure (positions of NL), all other bytes symbolic: complete for the stated length",
+            "parsing options are set on the object directly (the option tokenizer is checked under C15)",
+            "decomposition of the 'whenever it succeeds' half: the parser harness establishes the representation invariant I of the parsed object for every byte string; getters, listings, merge and write are decided with the same memory-safety checks from arbitrary states satisfying I by the C10/C11 (S-step), C03 (M) and C07 (W) harnesses; listings and string getters (and on 2-byte files all typed/extended getters and write+read-back) additionally run directly on the parsed object"],
+            "explanation": "bounded model checking of the real parser and follow-up API calls on all byte strings up to the length bound"}
 
 def small(name, harness, defs, E=2, G=3, unwind=24, timeout=600, extra_uw=(), leak=True, mem=8, functions="", bounds="", decoder=None, flags=(), envs=("libc_model.c", "vfs_cbmc.c"), expect=None):
     d = {"STRCAP": 24, "VCAP": max(E, G) + 1, "VFS_MAXNODES": 2, "VFS_CONTENT": 4}
